@@ -68,6 +68,8 @@ int flip_t() { gt = not gt; write('t'); return 1; }
 int set_s() { gs = "xyz"; write('s'); return 1; }
 int poke(int[] arr, int k) { arr[k] += 100; write('k'); return 1; }
 int zero_i() { gi = 0; return 0; }
+string[] GSS = ["ab", "hello", ""];
+string pick_s(int i) { if (i == 0) { return "zero"; } return "three"; }
 '''
 
 ORDER_CASES = [
@@ -95,6 +97,10 @@ ORDER_CASES = [
     'write(gi == gi - zero_i()); write(gi);',
     'write(("ab"[bump_i() - 1] is int) + gi);',
     'write(lenof(gs) + set_s()); write(gs.length);',
+    # computed left operand (lives in a register), right operand is the .length of something that needs registers
+    'write(gi * 2 - GSS[1].length); write(gi + 1 < GSS[0].length); write(gi + 1 - pick_s(1).length); write((gi + 1) * pick_s(0).length);',
+    'string[] ls = ["x", "yyy"]; int k = 1; write(gi * 3 + ls[k].length); write((gb + 1) * ls[k - 1].length); write(gi - 1 == GSS[gi - 4].length + 4);',
+    'int[] q = [1, 2, 3]; write(gi * 2 - q.length); write(gi + 1 - GA.length); write((gi + gb) %% [gi, gi].length); write(gi * 2 - gs.length);'.replace('%%', '%'),
 ]
 ORDER_HELPERS = '''int two(int x, int y) { return x * 10 + y; }
 int twob(byte x, int y) { return x * 10 + y; }
